@@ -295,8 +295,13 @@ def handleMst (c : Case) : CaseOut := Id.run do
       if cur.any (fun e => (cur.filter fun f => f.2.2 == e.2.2).length ≥ 2) then ties := ties + 1
       -- judge
       if verdict matches .ok then
-        let total := Comp.cost cur
-        if total ≥ 4294967296 then verdict := .skip s!"call {k}: sum of weights does not fit u32"
+        -- domain: the Rust adds up the weights of the SELECTED edges in a u32 (`mst_cost += edge.data`); what has to
+        -- fit is therefore the cost of the minimum spanning forest (the model's result, proved minimal:
+        -- Props.C16.kruskal_minimal), not the sum of all input weights - single weights may be as large as u32::MAX
+        let total := match Kruskal.kruskal cur with
+          | some (cost, _) => cost
+          | none => Comp.cost cur
+        if total ≥ 4294967296 then verdict := .skip s!"call {k}: cost of the minimum spanning forest does not fit u32"
         else
           match findLine c.impl s!"D {k} cost=", findLine c.impl s!"D {k} part=", (findLine c.impl s!"F {k} mst=").bind parseMst with
           | some cs, some ps, some mst =>
